@@ -19,6 +19,7 @@ CONSTANTS MaxCircs,    \* circuit handles
           Anchors,     \* templates that may be used freely; the others (Menu \ Anchors) at most MaxNonAnchor times per program
           MaxNonAnchor,
           ObsKinds,    \* kinds of interior observation: "full" battery, "plot" (compact drawing), "plotnc", "stim", "duration", "ops"
+          Masks,       \* mask lists the Mask action may use (sequences of MaskRec)
           DeepRefs,    \* may an explicit relation refer to an operation nested inside a sub-circuit (not a direct entry)?
           EmitOneIn    \* print every history (1) or a random 1/EmitOneIn sample of them (seeded by TLC's -seed)
 VARIABLES heap, tops, sealed, env, next, hist
@@ -157,6 +158,23 @@ Leave ==
   /\ hist' = Append(hist, Step("Leave", None, None, None, NoM, NoLink, <<"fixed", 1>>, "", 0, ""))
   /\ UNCHANGED <<heap, tops, sealed, next>>
 
+\* replace_operation on a flat circuit: a new circuit (extension, see Circuit.tla "masking")
+AnyOf(k, allowed) == CHOOSE x \in allowed : TRUE
+Mask ==
+  /\ "Mask" \in Acts /\ CanStep /\ Cardinality(tops) < MaxCircs
+  /\ \E c \in tops, ms \in Masks :
+       /\ heap[c].kids # <<>> /\ IsFlat(heap, c)
+       /\ Cardinality(DOMAIN heap) + Len(heap[c].kids) + 1 <= MaxObjs
+       /\ \E j \in 1..Len(ms), k \in Range(heap[c].kids) : MaskMatches(ms[j], heap[k])          \* something is masked
+       /\ LET src == heap[c].kids
+              new == Id(next)
+              f   == [i \in Range(src) |-> Id(next + IndexIn(src, i))]
+          IN /\ heap' = DoMask(heap, c, src, new, f, ms, AnyOf)
+             /\ tops' = tops \cup {new}
+             /\ next' = next + Len(src) + 1
+             /\ hist' = Append(hist, [Step("Mask", c, new, None, NoM, NoLink, <<"fixed", 1>>, "", 0, ToJson(ms)) EXCEPT !.fm = FMap(src, f)])
+       /\ UNCHANGED <<sealed, env>>
+
 Obs ==
   /\ "Obs" \in Acts /\ CanStep /\ ObsBudget /\ hist # <<>> /\ hist[Len(hist)].a # "Obs"
   /\ \E c \in tops, w \in ObsKinds :
@@ -164,7 +182,7 @@ Obs ==
        /\ hist' = Append(hist, Step("Obs", c, None, None, NoM, NoLink, <<"fixed", 1>>, "", 0, w))
        /\ UNCHANGED <<heap, tops, sealed, env, next>>
 
-Next == NewCircuit \/ AddOp \/ AddSub \/ CopyCirc \/ Apply \/ Reapply \/ Flatten \/ SetDur \/ SetRep \/ Enter \/ Leave \/ Obs
+Next == NewCircuit \/ AddOp \/ AddSub \/ CopyCirc \/ Apply \/ Reapply \/ Flatten \/ Mask \/ SetDur \/ SetRep \/ Enter \/ Leave \/ Obs
 Spec == Init /\ [][Next]_vars
 
 \* ---- emission of programs (generation role)
